@@ -382,7 +382,7 @@ def xsearch(find_text, within_text, start_num=1):
     n = int(start_num or 0) - 1
     if n < 0:
         return Error.errors['#VALUE!']
-    n = str(within_text).lower().find(str(find_text).lower(), n)
+    n = _str(within_text).lower().find(_str(find_text).lower(), n)
     if n < 0:
         return Error.errors['#VALUE!']
     return n + 1
